@@ -97,8 +97,9 @@ def _ref_step(val, op, scen, rel):
         has_slice = getattr(rel, "has_slice", None)
         if hs is not None:
             has_sort = bool(hs) and not bool(has_slice)
+    observed_engine = None if rel is None else str(rel.engine)
     try:
-        return ref_apply(val, op, scen, has_sort), None, False
+        return ref_apply(val, op, scen, has_sort, observed_engine), None, False
     except RefReject as r:
         return None, r, False
     except RefOOC:
